@@ -299,12 +299,83 @@ fn listing_then_delete_scenario() -> ScenFn {
     })
 }
 
+/// A push subscription whose endpoint is sitting on a request (no answer for 100 s) is deleted while a StreamingPull
+/// and a Pull wait on it: the deletion completes and both consumers are released without waiting for the endpoint.
+fn delete_during_push_scenario() -> ScenFn {
+    scen!([] |cx| {
+        cx.set_push_menu(vec![crate::engine::PushAnswer::Delay(100_000, 200)]);
+        let a = cx.api.clone();
+        must!(cx, "setup:create-topic", { let a = a.clone(); async move { a.create_topic(T0).await } });
+        must!(cx, "setup:create-push-sub", { let a = a.clone(); async move { a.create_sub(S0, T0, 10, Some("http://push.example/slow")).await } });
+        let n = 1 + cx.choose("messages", 2);
+        let msgs: Vec<Msg> = (0..n).map(|i| (format!("m{}", i).into_bytes(), vec![])).collect();
+        // the push loop takes the messages at its next round (~1001 ms) and its POSTs stay unanswered
+        {
+            let was = cx.freeze(true);
+            let q = cx.advance_ms(900).await;
+            cx.freeze(was);
+            tryv!(q);
+        }
+        // the messages are published first and taken by the push round (~1001 ms): its POSTs stay unanswered; the
+        // consumers arrive afterwards and wait
+        must!(cx, "client:publish", { let (a, m) = (a.clone(), msgs.clone()); async move { a.publish(T0, m).await } });
+        tryv!(cx.advance_ms(150).await);
+        let done_stream: Arc<Mutex<Option<String>>> = Default::default();
+        let done_pull: Arc<Mutex<Option<String>>> = Default::default();
+        let (ds, a2) = (done_stream.clone(), a.clone());
+        let hs = cx.spawn("client:00-stream", async move {
+            let (tx, r) = a2.streaming_pull(first_stream_req(S0, 10)).await;
+            let _keep = tx;
+            let end = match r {
+                Err(c) => format!("{:?}", c),
+                Ok(mut st) => loop {
+                    match st.message().await {
+                        Ok(Some(_)) => {}
+                        Ok(None) => break "EOF".to_string(),
+                        Err(e) => break format!("{:?}", e.code()),
+                    }
+                },
+            };
+            *ds.lock().unwrap() = Some(end);
+        });
+        let (dp, a3) = (done_pull.clone(), a.clone());
+        let hp = cx.spawn("client:01-pull", async move {
+            let r = a3.pull(S0, 1, false).await;
+            *dp.lock().unwrap() = Some(match r { Ok(v) => format!("OK({})", v.len()), Err(c) => format!("{:?}", c) });
+        });
+        tryv!(cx.quiesce().await);
+        let posts = cx.push_log().len();
+        let hd = { let a = a.clone(); cx.spawn("client:02-delete", async move { a.delete_sub(S0).await }) };
+        tryv!(cx.quiesce().await);
+        tryv!(cx.advance_ms(1_000).await);
+        let key = format!("messages={} posts-in-flight={}", n, posts);
+        if !hd.is_finished() {
+            return ScenarioOut::viol("delete-during-push/delete-hangs", format!("{}: DeleteSubscription has not returned one second after quiescence (the endpoint is still holding its request)", key));
+        }
+        let d = hd.await.unwrap();
+        if d.is_err() {
+            return ScenarioOut::viol("delete-during-push/delete-failed", format!("{}: {:?}", key, d));
+        }
+        let (es, ep) = (done_stream.lock().unwrap().clone(), done_pull.lock().unwrap().clone());
+        if !hs.is_finished() || es.as_deref() != Some("NotFound") {
+            return ScenarioOut::viol("delete-during-push/stream-not-released", format!("{}: one second after DeleteSubscription returned the StreamingPull is {:?}", key, es));
+        }
+        // the Pull may have returned a message before the deletion; otherwise it must have been released with an error
+        match ep.as_deref() {
+            Some(_) if hp.is_finished() => {}
+            other => return ScenarioOut::viol("delete-during-push/pull-not-released", format!("{}: one second after DeleteSubscription returned the blocked Pull is {:?}", key, other)),
+        }
+        ScenarioOut::ok(format!("{} pull={:?}", key, ep))
+    })
+}
+
 pub fn units(thorough: bool) -> Vec<Unit> {
     use Cons::*;
     let d = if thorough { 9 } else { 4 };
     let d2 = if thorough { 6 } else { 3 };
     let cfg = ExecCfg::default();
     let mut v = vec![];
+    v.push(explore_unit("sched/delete-during-push", "a push subscription whose endpoint holds a request unanswered is deleted while a StreamingPull and a Pull wait on it: DeleteSubscription returns and both are released (schedules explored)", Bounds::new(if thorough { 2 } else { 1 }), ExecCfg { push_interval_ms: Some(1000), ..Default::default() }, delete_during_push_scenario()));
     v.push(explore_unit("seq/listing-then-delete", "ListTopicSubscriptions page by page with subscriptions deleted in between (stale / shifted / huge tokens), then the subscription on which a StreamingPull and a Pull wait is deleted: both are released", Bounds::new(0), ExecCfg::default(), listing_then_delete_scenario()));
     let progs: Vec<(&'static str, Vec<Cons>, Vec<Cons>, bool, usize)> = vec![
         ("stream-open", vec![StreamOpen], vec![], false, d),
